@@ -209,7 +209,14 @@ def gen_history(rng: random.Random, nstruct=4, length=12, invalid_p=0.0, max_pin
                     nexpo[0] += 1
                 emit(["map", name, list(p)])
                 tr.mapped[name] = p
+        elif r < 0.80 + 0.0 and False:
+            pass
         elif r < 0.83:
+            if tr.present and rng.random() < 0.5:
+                i = rng.choice(tr.present)
+                if sizes[i] > 0:
+                    emit(["setp", i, rng.randint(1, 8) / 8.0 + 0.03125])
+                    continue
             if rng.random() < 0.6:
                 # an empty model declared right before another structure, then prune
                 absent0 = [i for i in range(nstruct) if i not in tr.present and sizes[i] == 0 and i not in tr.dirty]
@@ -247,6 +254,7 @@ class Driver:
         self.sol = lk.Solver()
         self.ids = {}
         self.added = set()
+        self.corrupt = False          # a rejected call changed the solver's parameter defaults
 
     def structure(self, i):
         if i not in self.sts:
@@ -255,7 +263,8 @@ class Driver:
             if n == 0:
                 m = lk.Model()
             else:
-                m = lk.Model(pin_dic={Pin(pname(i, k)): k for k in range(n)}, Smatrix=netlib.j2m(c["S"]))
+                m = lk.Model(pin_dic={Pin(pname(i, k)): k for k in range(n)}, param_dic={f"q{i}": 0.25},
+                             Smatrix=netlib.j2m(c["S"]))
             self.models[i] = m
             st = Structure(model=m)
             self.sts[i] = st
@@ -271,7 +280,11 @@ class Driver:
     def apply(self, op):
         """returns (ok, solved_model_or_None)"""
         mod = None
+        before = repr(sorted((k, repr(v)) for k, v in self.sol.default_params.items()))
         try:
+            if op[0] == "setp":
+                self.sol.set_param(f"q{op[1]}", op[2])
+                return True, None
             if op[0] == "add":
                 st = self.structure(op[1])
                 self.added.add(op[1])
@@ -298,6 +311,8 @@ class Driver:
                 mod = self.sol.solve()
             return True, mod
         except Exception:
+            if repr(sorted((k, repr(v)) for k, v in self.sol.default_params.items())) != before:
+                self.corrupt = True
             return False, None
 
     def observe(self, ok, mod):
@@ -309,6 +324,8 @@ class Driver:
              "free": [self.tup(t) for t in sol.free_pins],
              "map": [(name_id(p.name), self.tup(t)) for p, t in sol.pin_mapping.items()],
              "store": [], "S": None}
+        if self.corrupt:
+            o["structs"] = o["structs"] + [999]      # atomicity covers the parameter defaults too
         for i, st in sorted((i, st) for i, st in self.sts.items() if i in self.added):
             o["store"].append((i, [self.tup(t) for t in st.pin_list],
                                [(self.tup(a), self.tup(b)) for a, b in st.conn_dict.items()],
@@ -361,6 +378,8 @@ def run_history(desc, by_name=False):
     ops = []
     for op in desc["ops"]:
         ok, mod = drv.apply(op)
+        if op[0] == "setp":
+            continue                  # parameter defaults are not part of the wiring model
         try:
             o = drv.observe(ok, mod)
         except Exception:
